@@ -803,6 +803,24 @@ func keystoreRoundTrips(run *ev.Run, w0 *ksWorker, keys []keyCase, passes []pass
 		if s, err := signsAs(ks, a); err != nil || s != j.k.addr {
 			fail("sign-after-Unlock", fmt.Sprintf("%x %v", s, err))
 		}
+		// a wrong passphrase is refused also while the account is already unlocked (indefinitely, then
+		// with a timeout): unlocking again must decrypt again
+		if err := ks.Unlock(a, wrong); err == nil {
+			fail("Unlock-wrong-passphrase-while-unlocked", "accepted")
+		}
+		if err := ks.TimedUnlock(a, wrong, time.Minute); err == nil {
+			fail("TimedUnlock-wrong-passphrase-while-unlocked", "accepted")
+		}
+		if err := ks.TimedUnlock(a, pass, time.Minute); err != nil {
+			fail("TimedUnlock", err.Error())
+		}
+		if err := ks.TimedUnlock(a, wrong, time.Minute); err == nil {
+			fail("TimedUnlock-wrong-passphrase-while-timed-unlocked", "accepted")
+		}
+		if s, err := signsAs(ks, a); err != nil || s != j.k.addr {
+			fail("sign-after-refused-unlocks", fmt.Sprintf("%x %v", s, err))
+		}
+		run.Eval(4)
 		tx := types.NewTransaction(0, common.Address{1}, big.NewInt(1), 21000, big.NewInt(1), nil)
 		if stx, err := ks.SignTx(a, tx, big.NewInt(61717561)); err != nil {
 			fail("SignTx", err.Error())
